@@ -858,6 +858,16 @@ def rule_SQ8(ctx, tier):
                     continue
                 nums = [k for c, k in pairs if k is not None]
                 plain = [c for c, k in pairs if k is None]
+                # every numbered placeholder of the text counts for the 1..n discipline, also those inside an expression
+                allnums = [int(x) for x in re.findall(r"\?(\d+)", st)]
+                # what an UPDATE / upsert persists is the bound value itself: the in-memory twin of the write holds exactly that value
+                # (PL7 / AT2), so `SET col = f(col, ?k)` makes memory and disk differ whenever f is not the identity
+                mset = re.search(r"\bSET\b(.*?)(?:\bWHERE\b|$)", st, re.I)
+                if mset:
+                    for asg in mset.group(1).split(","):
+                        ma = re.match(r"\s*(\w+)\s*=\s*(.+?)\s*$", asg)
+                        if ma and not re.match(r"^\(?(\?\d*|:\w+|excluded\.\w+)\)?$", ma.group(2), re.I):
+                            rr.fail("set-not-bound-value:%s:%s" % (shortfn(bid), ma.group(1)), "%s DBM: `%s` persists `%s = %s`, an expression and not the bound value: the record kept in memory holds the bound value, so what is reported and what is reloaded after a restart differ" % (side, st[:90], ma.group(1), ma.group(2)[:40]), where=b.line_of(bb))
                 holes = len(re.findall(r"\?", st))
                 # fragments appended to the statement at run time (`sql.push_str(" AND a.locator=(?)")`) may add placeholders
                 extra = sum(str(x[1]).count("?") for fb_ in [b] for bb_ in fb_.rpo() for s_ in fb_.blocks[bb_]["s"] + [fb_.term(bb_)]
@@ -868,8 +878,8 @@ def rule_SQ8(ctx, tier):
                     rr.fail("placeholders:mixed:%s" % shortfn(bid), "%s DBM: `%s` mixes numbered and plain placeholders" % (side, st[:90]), where=b.line_of(bb))
                     continue
                 if nums:
-                    if sorted(set(nums)) != list(range(1, len(vals) + 1)):
-                        rr.fail("placeholders:numbers:%s" % shortfn(bid), "%s DBM: `%s` uses placeholders %s but %d value(s) are bound: a number is skipped, repeated in place of another, or out of range (rusqlite refuses the statement, or a column silently receives another column's value)" % (side, st[:90], sorted(set(nums)), len(vals)), where=b.line_of(bb))
+                    if sorted(set(allnums)) != list(range(1, len(vals) + 1)):
+                        rr.fail("placeholders:numbers:%s" % shortfn(bid), "%s DBM: `%s` uses placeholders %s but %d value(s) are bound: a number is skipped, repeated in place of another, or out of range (rusqlite refuses the statement, or a column silently receives another column's value)" % (side, st[:90], sorted(set(allnums)), len(vals)), where=b.line_of(bb))
                         continue
                     m_ins = re.match(r"INSERT", st, re.I)
                     if m_ins:
